@@ -637,6 +637,49 @@ theorem applyExtList_spec (hEr : ∀ e, e ≠ Err.fuel → Er e) :
     omega
 end
 
+mutual
+/-- where `ext_hook` runs, every extension value of a literal tree is converted (or decoding fails) -/
+theorem applyExt_noExt :
+    ∀ (v : Val), plainB v = true → Sat (fun w => noExtB w = true) (fun _ => True) (fun _ => True) (applyExt E v)
+  | .ext code raw conv t, _ => by
+    unfold applyExt
+    refine sat_ite (fun _ => ?_) fun _ => sat_fail _ trivial
+    refine sat_bind (sat_emit _ trivial) fun _ _ => ?_
+    refine sat_bind (sat_checkExt _ _ trivial) fun _ _ => ?_
+    exact sat_pure _ rfl
+  | .set xs, h => by
+    unfold applyExt
+    refine sat_bind (applyExtList_noExt xs (by simpa only [plainB] using h)) fun ys hys => ?_
+    exact sat_pure _ (by simpa only [noExtB] using hys)
+  | .list xs, h => by
+    unfold applyExt
+    refine sat_bind (applyExtList_noExt xs (by simpa only [plainB] using h)) fun ys hys => ?_
+    exact sat_pure _ (by simpa only [noExtB] using hys)
+  | .tuple xs, h => by
+    unfold applyExt
+    refine sat_bind (applyExtList_noExt xs (by simpa only [plainB] using h)) fun ys hys => ?_
+    exact sat_pure _ (by simpa only [noExtB] using hys)
+  | .dict ks vs, h => by
+    unfold applyExt
+    refine sat_bind (applyExtList_noExt vs (by simpa only [plainB] using h)) fun ws hws => ?_
+    exact sat_pure _ (by simpa only [noExtB] using hws)
+  | .atom _ _, _ => by unfold applyExt; exact sat_pure _ rfl
+  | .blob _ _, _ => by unfold applyExt; exact sat_pure _ rfl
+  | .str _, _ => by unfold applyExt; exact sat_pure _ rfl
+  | .bytes _, _ => by unfold applyExt; exact sat_pure _ rfl
+  | .inst c ps, h => by simp [plainB] at h
+theorem applyExtList_noExt :
+    ∀ (vs : List Val), plainListB vs = true →
+      Sat (fun ws => noExtListB ws = true) (fun _ => True) (fun _ => True) (applyExtList E vs)
+  | [], _ => by unfold applyExtList; exact sat_pure _ rfl
+  | x :: xs, h => by
+    unfold applyExtList
+    simp only [plainListB, Bool.and_eq_true] at h
+    refine sat_bind (applyExt_noExt x h.1) fun y hy => ?_
+    refine sat_bind (applyExtList_noExt xs h.2) fun ys hys => ?_
+    exact sat_pure _ (by simp only [noExtListB, hy, hys, Bool.and_self])
+end
+
 theorem loads_spec (P : Prop) (ser : Ser) (fuel : Nat) (lit : Val) (hc : closedB E.reg lit = true)
     (hd : P → depth lit < fuel) : Good E (fun e => e = Err.fuel → ¬ P) (loads E ser fuel lit) := by
   have hEr : ∀ e, e ≠ Err.fuel → (fun e => e = Err.fuel → ¬ P) e := fun e hne h => absurd h hne
